@@ -3,7 +3,9 @@ use std::collections::HashMap;
 use rusty_common::CaseInsensitiveString;
 use rusty_linter::core::{QBNumberCast, ScopeName};
 use rusty_parser::{BareName, BuiltInFunction, TypeQualifier};
-use rusty_variant::{UserDefinedTypeValue, VArray, Variant, bytes_to_i32, i32_to_bytes};
+use rusty_variant::{
+    UserDefinedTypeValue, VArray, Variant, bytes_to_f64, bytes_to_i32, f64_to_bytes, i32_to_bytes,
+};
 
 use crate::RuntimeError;
 use crate::instruction_generator::{Path, RootPath};
@@ -565,13 +567,18 @@ pub trait PeekByte {
 
 impl PeekByte for Variant {
     fn peek_byte(&self, address: usize) -> Result<u8, RuntimeError> {
-        match self {
-            Self::VInteger(i) => {
-                let bytes = i32_to_bytes(*i);
-                Ok(bytes[address])
-            }
-            _ => todo!(),
-        }
+        let bytes: Vec<u8> = match self {
+            Self::VInteger(i) => i32_to_bytes(*i).to_vec(),
+            Self::VLong(l) => (*l as i32).to_le_bytes().to_vec(),
+            Self::VSingle(f) => f.to_le_bytes().to_vec(),
+            Self::VDouble(d) => f64_to_bytes(*d).to_vec(),
+            // strings and compound values do not live at a fixed address
+            _ => return Err(RuntimeError::IllegalFunctionCall),
+        };
+        bytes
+            .get(address)
+            .copied()
+            .ok_or(RuntimeError::SubscriptOutOfRange)
     }
 }
 
@@ -597,11 +604,38 @@ impl PokeByte for Variant {
         match self {
             Self::VInteger(i) => {
                 let mut bytes = i32_to_bytes(*i);
-                bytes[address] = value;
+                *bytes
+                    .get_mut(address)
+                    .ok_or(RuntimeError::SubscriptOutOfRange)? = value;
                 *i = bytes_to_i32(bytes);
                 Ok(())
             }
-            _ => todo!(),
+            Self::VLong(l) => {
+                let mut bytes = (*l as i32).to_le_bytes();
+                *bytes
+                    .get_mut(address)
+                    .ok_or(RuntimeError::SubscriptOutOfRange)? = value;
+                *l = i32::from_le_bytes(bytes) as i64;
+                Ok(())
+            }
+            Self::VSingle(f) => {
+                let mut bytes = f.to_le_bytes();
+                *bytes
+                    .get_mut(address)
+                    .ok_or(RuntimeError::SubscriptOutOfRange)? = value;
+                *f = f32::from_le_bytes(bytes);
+                Ok(())
+            }
+            Self::VDouble(d) => {
+                let mut bytes = f64_to_bytes(*d);
+                *bytes
+                    .get_mut(address)
+                    .ok_or(RuntimeError::SubscriptOutOfRange)? = value;
+                *d = bytes_to_f64(&bytes);
+                Ok(())
+            }
+            // strings and compound values do not live at a fixed address
+            _ => Err(RuntimeError::IllegalFunctionCall),
         }
     }
 }
